@@ -273,6 +273,26 @@ impl<'tcx> Dumper<'tcx> {
                         items.push(("s", js(&String::from_utf8_lossy(bytes))));
                     }
                 }
+            } else if let ty::Array(elem, len) = inner.kind() {
+                // byte string literals: &[u8; N]
+                if *elem == tcx.types.u8 {
+                    if let Some(n) = len.try_to_target_usize(tcx) {
+                        if let Ok(ConstValue::Scalar(mir::interpret::Scalar::Ptr(ptr, _))) =
+                            c.const_.eval(tcx, tenv, rustc_span::DUMMY_SP)
+                        {
+                            let (prov, off) = ptr.into_raw_parts();
+                            if let Some(mir::interpret::GlobalAlloc::Memory(m)) = tcx.try_get_global_alloc(prov.alloc_id()) {
+                                let a = m.inner();
+                                let start = off.bytes() as usize;
+                                let end = start + n as usize;
+                                if end <= a.len() && n <= 4096 {
+                                    let bytes = a.inspect_with_uninit_and_ptr_outside_interpreter(start..end);
+                                    items.push(("s", js(&String::from_utf8_lossy(bytes))));
+                                }
+                            }
+                        }
+                    }
+                }
             }
         }
         jobj(&items)
